@@ -35,6 +35,10 @@ func (c *ctx) emit(op, res string) {
 	c.count++
 }
 
+// batch announces that the next k trace lines are the outcomes of k operations issued concurrently:
+// the driver searches a one-at-a-time order that explains them
+func (c *ctx) batch(k int) { fmt.Fprintf(c.out, "batch %d\n", k) }
+
 // comment lines are ignored by the driver and by replay
 func (c *ctx) note(s string) { fmt.Fprintf(c.out, "# %s\n", s) }
 
@@ -51,6 +55,13 @@ func main() {
 		lgw.Logger.SetOutput(io.Discard)
 		lgw.Logger.SetLevel(logrus.PanicLevel)
 		runPlugWorker()
+		return
+	}
+	if name == "chainworker" {
+		lgw := logger.GetLogger("harness")
+		lgw.Logger.SetOutput(io.Discard)
+		lgw.Logger.SetLevel(logrus.PanicLevel)
+		runChainWorker()
 		return
 	}
 	if name == "facts" {
@@ -86,7 +97,7 @@ func main() {
 		sc.Buffer(make([]byte, 1<<20), 1<<26)
 		for sc.Scan() {
 			l := sc.Text()
-			if strings.HasPrefix(l, "#") || strings.TrimSpace(l) == "" {
+			if strings.HasPrefix(l, "#") || strings.HasPrefix(l, "batch ") || strings.TrimSpace(l) == "" {
 				continue
 			}
 			if i := strings.Index(l, " => "); i >= 0 {
